@@ -102,8 +102,55 @@ def innermost_loops(body):
     return out
 
 
+def move_aliases(body, start):
+    """every place the buffer that lives in local `start` at some point lives in as it is moved around: other locals (`let b2 = b;`), a field
+    of a wrapper (`Frame(buf)`, `Writer { buf }`), a local it is moved back out into - before or after `start`.  Returns ("any", [aliases]);
+    an alias is a local or ("field", local, index)."""
+    edges = {}
+
+    def link(x, y):
+        edges.setdefault(x, set()).add(y)
+        edges.setdefault(y, set()).add(x)
+    whole = []      # (dst local, src local): a whole value moved; field aliases travel with it
+    for bi, si, st in body.stmts():
+        d = st["dst"]
+        if d["proj"]:
+            continue
+        rv = st["rv"]
+        if rv["k"] == "use" and isinstance(rv["ops"][0], dict) and "p" in rv["ops"][0] and rv["ops"][0].get("mv"):
+            q = rv["ops"][0]["p"]
+            fs = [e for e in q["proj"] if isinstance(e, dict) and "f" in e]
+            if not q["proj"]:
+                link(d["l"], q["l"])
+                whole.append((d["l"], q["l"]))
+            elif len(fs) == 1 and all(e == "*" or e is fs[0] for e in q["proj"]):
+                link(d["l"], ("field", q["l"], fs[0]["f"]))
+        elif rv["k"] == "agg" and rv.get("agg") in ("adt", "tuple"):
+            for i, o in enumerate(rv["ops"]):
+                if isinstance(o, dict) and "p" in o and o.get("mv") and not o["p"]["proj"]:
+                    link(("field", d["l"], i), o["p"]["l"])
+    al = [start]
+    i = 0
+    while i < len(al) and len(al) < 32:
+        x = al[i]
+        i += 1
+        for y in edges.get(x, ()):
+            # a plain local must have a buffer-like type to count (a moved `usize` is not the buffer)
+            if y not in al:
+                al.append(y)
+        if isinstance(x, tuple):
+            for dl, sl_ in whole:
+                for a, b_ in ((dl, sl_), (sl_, dl)):
+                    if x[1] == a and ("field", b_, x[2]) not in al:
+                        al.append(("field", b_, x[2]))
+    return ("any", al) if len(al) > 1 else start
+
+
 def is_buf(body, arg, buf):
-    """buf: a local, or ("upvar", j) = the place captured as field j of a closure's environment"""
+    """buf: a local, or ("upvar", j) = the place captured as field j of a closure's environment, or ("field", l, j), or ("any", [..]) = the
+    same buffer under several names (writes.move_aliases)"""
+    if isinstance(buf, tuple) and buf[0] == "any":
+        return any(is_buf(body, arg, a) for a in buf[1])
     if isinstance(buf, tuple):
         # ("upvar", j): field j of the closure environment (local 1); ("field", l, j): field j of the struct held in (or pointed to by) local l
         root, fld = (1, buf[1]) if buf[0] == "upvar" else (buf[1], buf[2])
